@@ -94,7 +94,13 @@ def softmax_vec(logits, label='theta'):
         s = sum(ex)
         return [e / s for e in ex]
     p = PATH()
+    lg0 = [to_real(x) if is_sym(x) else z3.RealVal(fractions.Fraction(x)) for x in logits]
+    cache = p.__dict__.setdefault('softmax_cache', {})
+    key = tuple(t.get_id() for t in lg0)
+    if key in cache:                      # softmax is a function: same logits, same result
+        return list(cache[key])
     th = [p.fresh(label, z3.RealSort()) for _ in range(n)]
+    cache[key] = th
     ax = [t > 0 for t in th]
     ax.append(z3.Sum(th) == 1 if n > 1 else th[0] == 1)
     lg = [to_real(x) if is_sym(x) else z3.RealVal(fractions.Fraction(x)) for x in logits]
